@@ -48,6 +48,8 @@ func init() {
 			ruleSGNames(c)
 			ruleRecList(c)
 			ruleBTSentinel(c)
+			ruleArrBound(c)
+			ruleBTArrMap(c)
 		})
 
 	register("C13",
@@ -79,6 +81,7 @@ func init() {
 			ruleVarStd(c)
 			ruleOMValid(c)
 			ruleFLTotal(c)
+			ruleCDNum(c)
 		})
 }
 
@@ -100,6 +103,7 @@ func init() {
 			ruleRegExact(c)
 			ruleRegOverwrite(c)
 			ruleSGRepeat(c)
+			ruleSGComp(c)
 		})
 }
 
@@ -133,6 +137,7 @@ func init() {
 			"Not decided: equality of values for all types, values and configurations.",
 		func(c *Ctx) {
 			ruleSGRepeat(c)
+			ruleSGComp(c)
 			ruleSKFail(c)
 			ruleWAWR(c, nil, 27)
 			ruleWALenCnt(c)
@@ -182,6 +187,7 @@ func init() {
 			ruleValFold(c)
 			ruleTSMult(c)
 			ruleTSStr(c)
+			ruleCTAgree(c, s)
 			if enc := findEncoder(c.P); enc.ctor != nil {
 				ruleENCHdr(c, enc.ctor)
 			}
@@ -195,6 +201,8 @@ func init() {
 			ruleRCVarint(c)
 			ruleUVFold(c)
 			ruleValFold(c)
+			ruleWARS(c)
+			ruleCDNum(c)
 			ruleC17(c)
 			ruleBTWidth(c, true)
 		})
@@ -213,6 +221,8 @@ func init() {
 			ruleBTSubNil(c)
 			ruleNilNew(c)
 			ruleERUse(c)
+			ruleODBank(c, findReadFile(c.P))
+			ruleODDeliver(c, findReadFile(c.P))
 			s := findReadFile(c.P)
 			c.Rule("NIL-IFACE", "no nil interface value can reach the receiver of the decompress call", 1)
 			if rfDecide(c, "codec") {
